@@ -171,11 +171,11 @@ package v2
 //@   ensures [bearer_is_the_requests] err == nil ==> res0.Bearer == tokens.Bearer
 
 //@ callrule c28_ttl_fact in (Service).PutRequestToInfo
-//@   property C28
+//@   property C28 C29
 //@   callee *RequestMetaHeader).GetTtl
 //@   defines result == reqTTL()
 //@ func (Service).PutRequestToInfo
-//@   property C28
+//@   property C28 C29
 //@   ensures [tombstone_put_is_delete_unless_replication] err == nil ==> res0.Operation == ite(op == acl.OpObjectDelete && res0.RequestRole == acl.RoleContainer && reqTTL() == 1, acl.OpObjectPut, op)
 
 // The verdict cache is shared with the object validator (internal/crypto.AuthenticateObject
